@@ -23,7 +23,8 @@ ASSUMPTIONS = ["octet-level model: text is UTF-8 (latin-1 for the Basic header, 
 
 VALS = ["abc", "a b", "a+b", "a&b=c", "x#y?z;w/", "q\"'\\", "naïve✓", "100%", "%41", "a:b", " lead", "trail ", "~-._", "\t"]
 ASCII_BASIC = ["abc", "a b", "a+b", "a&b=c", "x#y?z;w/", "q\"'\\", "~-._", "p:w:d", "Z9", "a=b", " x", "semi;colon"]
-EXISTING = ["", "x=1", "x=1&y=%20", "k=v+w&k=v%2Bw", "blank=&z", "a=%E2%9C%93"]
+EXISTING = ["", "x=1", "x=1&y=%20", "k=v+w&k=v%2Bw", "blank=&z", "a=%E2%9C%93",
+            "state=own&x=1", "scope=preset", "client_id=own&x=1", "access_token=own&y=2", "code=own", "redirect_uri=own"]      # names that collide with protocol parameters
 
 
 def hx(s, enc="utf-8"):
@@ -352,6 +353,10 @@ def _server_view(req):
     """parse a captured wire request with the library's own server half"""
     method, url, headers, body = req
     hdr = {"Authorization": headers[k] for k in headers if k.lower() == "authorization"}
+    # a server reads exactly Content-Length octets of the body
+    cl = [headers[k] for k in headers if k.lower() == "content-length"]
+    if cl and str(cl[0]).isdigit():
+        body = body.encode("utf-8")[:int(cl[0])].decode("utf-8", "replace")
     form = dict(parse_qsl(body, keep_blank_values=True))
     r = OAuth2Request(method, url, form, hdr)
     bid, bsec = extract_basic_authorization(r.headers)
